@@ -510,9 +510,15 @@ func (r *row) MarshalJSON() (res []byte, err error) {
 	for e := r.l.Front(); e != nil; e = e.Next() {
 		k, _ := e.Value.(string)
 		if r.m[k].GetFormat() != Hidden {
-			res = append(res, fmt.Sprintf("%q:", k)...)
-
 			var b []byte
+
+			b, err = json.Marshal(k)
+			if err != nil {
+				return
+			}
+
+			res = append(res, b...)
+			res = append(res, ':')
 
 			b, err = json.Marshal(r.m[k])
 			if err != nil {
